@@ -1,4 +1,5 @@
 import TantivyModel.Proofs.GrammarFold
+import TantivyModel.Proofs.GrammarSimplify
 /-!
 # C16 — The query parser is total and implements its documented grammar
 
@@ -162,13 +163,52 @@ theorem C16_group_assoc (m : Mode) (res : L → LAst T) (v : T → Bool) (a b c 
 
 /-! ## `rewrite_ast` -/
 
-/- Full statement (not proved yet, kept visible):
-   `theorem C16_rewrite_preserves_sem (m) (res) (v) (t : Ast L) (h : safeWith m false t = true) :
-      semAst m res v (rewrite t) = semAst m res v t`
-   (dedup of identical clauses and unwrapping of unmarked singleton groups whose inner occur is
-   absent or the mode's default keep the meaning). `safeWith` (Model/Grammar/Safe.lean) is the
-   executable side condition; the harness evaluates it on every semantic mismatch to attribute
-   it. Unconditionally the statement is false: -/
+/-- `rewrite_ast` keeps the meaning of every tree that satisfies the side condition `safeWith`
+    (Model/Grammar/Safe.lean): removing duplicate clauses never matters, and unwrapping an unmarked
+    singleton group `(None, Clause [(o, x)])` to `(o, x)` is harmless when `o` is absent or the
+    mode's default occur. (The `NOT` normalisation — `o = MustNot` — deliberately changes the
+    meaning, see `C16_rewrite_not_is_minus`; other explicit occurs are the defect witnessed by
+    `C16_rewrite_preserves_sem_counterexample`.) -/
+theorem C16_rewrite_preserves_sem [DecidableEq L] (m : Mode) (res : L → LAst T) (v : T → Bool)
+    (t : Ast L) (h : safeWith m false t = true) :
+    semAst m res v (rewrite t) = semAst m res v t :=
+  (rewrite_ok m res v t h).1
+
+example : safeWith .orDefault false
+    (.clause [(none, .clause [(none, .leaf 1), (none, .leaf 1)]), (none, .leaf 2), (none, (.leaf 2 : Ast Nat))]) = true
+    ∧ rewrite (.clause [(none, .clause [(none, .leaf 1), (none, .leaf 1)]), (none, .leaf 2), (none, (.leaf 2 : Ast Nat))])
+      = .clause [(none, .leaf 1), (none, .leaf 2)] := ⟨rfl, rfl⟩
+
+/-- `a NOT b` is read as `a -b`: the unmarked pure-negative group is unwrapped into a MUST_NOT
+    clause (pinned by `test_not_queries_are_consistent`) -/
+theorem C16_rewrite_not_is_minus [DecidableEq L] (a b : L) :
+    rewrite (.clause [(none, .leaf a), (none, (Ast.leaf b).unary .mustNot)])
+      = .clause [(none, .leaf a), (some .mustNot, .leaf b)] := by
+  simp [rewrite, rewriteL, dedup, dedupAux, Ast.entryBeq, Ast.beq, unwrapEntry, Ast.unary]
+
+/-- `LogicalAst::simplify` (applied by the strict `parse_query` only) keeps the meaning -/
+theorem C16_simplify_preserves_sem (v : T → Bool) (t : LAst T) :
+    semL v (simplify t) = semL v t :=
+  (simplify_ok v t).1
+
+example : simplify (.clause [(.should, .clause [(.should, .leaf 1), (.should, (.leaf 2 : LAst Nat))]), (.should, .leaf 3)])
+    = .clause [(.should, .leaf 1), (.should, .leaf 2), (.should, .leaf 3)] := rfl
+
+/-- hence `QueryParser::parse_query_lenient` matches what `parse_query` matches whenever the
+    latter returns a query (model of both pipelines on the same syntax tree) -/
+theorem C16_queryparser_lenient_agrees (m : Mode) (defaults : List Nat) (v : RLeaf → Bool)
+    (a : Ast Leaf) (b : Bool) (h : strictSem m defaults v a = some b) :
+    lenientSem m defaults v a = b := by
+  unfold strictSem at h
+  split at h
+  · cases h
+  · split at h
+    · rename_i t hc
+      simp only [Option.some.injEq] at h
+      rw [← h, C16_simplify_preserves_sem]
+      simp [lenientSem, hc]
+    · cases h
+
 /-- FALSE in general: `rewrite_ast` preserves the meaning of every tree
     (`∀ m t, semAst m res v (rewrite t) = semAst m res v t`).
     Witness `(+a +a) b` in the default mode: before the rewrite `(a ∧ a) ∨ b`, after it `+a b`,
